@@ -184,7 +184,9 @@ impl LayoutSpec {
             // names that repeat the prefix / suffix around the number of an indexed file
             for n in numbers.iter().take(3) {
                 plan.extra_files.push((format!("blk{:05}.dat.dat", n), vec![0x44; 600]));
-                plan.extra_files.push((format!("blkblk{:05}.dat", n), vec![0x45; 600]));
+                plan.pre_files.push((format!("blkblk{:05}.dat", n), vec![0x45; 600]));
+                plan.pre_files.push((format!("blk{:05}.dat.dat.dat", n), vec![0x48; 600]));
+                plan.extra_files.push((format!("blkblkblk{:05}.dat", n), vec![0x49; 600]));
                 plan.extra_files.push((format!("blk{:05}.dat.tmp", n), vec![0x46; 60]));
                 plan.extra_files.push((format!("blk{:05}.DAT", n), vec![0x47; 60]));
             }
